@@ -1527,6 +1527,24 @@ func (s *Store) deleteValue(key []byte) error {
 	return err
 }
 
+// deleteDatasetRecord removes the stored dataset record and stores the updated set of deleted dataset ids
+// atomically, in a single transaction.
+func (s *Store) deleteDatasetRecord(datasetKey []byte, deletedDatasets map[uint32]bool) error {
+	b, err := json.Marshal(deletedDatasets)
+	if err != nil {
+		return err
+	}
+	indexBytes := make([]byte, 2)
+	binary.BigEndian.PutUint16(indexBytes, uint16(StoreMetaIndex))
+	deletedDatasetsKey := append(indexBytes, []byte("::deleteddatasets")...)
+	return s.database.Update(func(txn *badger.Txn) error {
+		if err := txn.Delete(datasetKey); err != nil {
+			return err
+		}
+		return txn.Set(deletedDatasetsKey, b)
+	})
+}
+
 func (s *Store) moveValue(oldKey, newKey, newValue []byte) error {
 	tags := []string{
 		"application:datahub",
